@@ -122,7 +122,8 @@ class Contract:
     def __init__(self, name, fn, params, result=None, requires=None, ensures=None, raises=None,
                  modifies=None, loops=None, decreases=None, depth=None, assumed=False,
                  raises_post=None, pure=False, locals_types=None, cls=None, ghost_args=None,
-                 may_raise_any=False, notes='', allow_implicit=(), mutates=(), asserts_raise=False, invariants=None, rec_group=None, epilogue=None, nested=None):
+                 may_raise_any=False, notes='', allow_implicit=(), mutates=(), asserts_raise=False, invariants=None, rec_group=None, epilogue=None, nested=None, on_yield=None):
+        self.on_yield = on_yield            # lambda cx, yielded-so-far VList, value: ghost facts at each yield of a generator under contract
         self.nested = nested                # name of a function defined inside fn: the target is that inner function; its free variables are declared as parameters
         self.epilogue = epilogue            # lambda I: ghost code run after a normal return, before the postconditions (e.g. firing registered callbacks)
         self.rec_group = rec_group          # mutually recursive functions sharing one `decreases` measure
